@@ -196,3 +196,75 @@ func vh_session_close() {
 	}
 	vObserve("cancelled", cancelled)
 }
+
+// ---- the per-session map of host pools: add / remove / close in any order ----
+//
+// policyConnPool keeps one hostConnPool per host id. A history of <= 3 operations over two hosts
+// (addHost, removeHost, Close) is run with hostConnPool.fill / Close replaced by counters (their own
+// behaviour is decided above): a host has at most one pool at a time, a pool that leaves the map is
+// closed (exactly once, directly or by the spawned Close), Close leaves the map empty.
+
+var (
+	vPoolFills  map[*hostConnPool]int
+	vPoolCloses map[*hostConnPool]int
+)
+
+func vstubHostPoolFill(p *hostConnPool)  { vPoolFills[p]++ }
+func vstubHostPoolClose(p *hostConnPool) { vPoolCloses[p]++ }
+
+func vh_policy_pool_history() {
+	s := &Session{logger: vNopLogger{}}
+	s.cfg.NumConns = 2
+	pp := newPolicyConnPool(s)
+	hosts := []*HostInfo{
+		{hostId: "h1", connectAddress: vAddrs[0], port: 9042, state: NodeUp},
+		{hostId: "h2", connectAddress: vAddrs[1], port: 9042, state: NodeUp},
+	}
+	vPoolFills, vPoolCloses = map[*hostConnPool]int{}, map[*hostConnPool]int{}
+	var everSeen []*hostConnPool
+	note := func() {
+		for _, p := range pp.hostConnPools {
+			known := false
+			for _, q := range everSeen {
+				known = known || q == p
+			}
+			if !known {
+				everSeen = append(everSeen, p)
+			}
+		}
+	}
+	n := vBound("ops")
+	for i := 0; i < n; i++ {
+		h := hosts[vChoose("host", 2)]
+		switch vChoose("op", 3) {
+		case 0:
+			pp.addHost(h)
+			p, ok := pp.hostConnPools[h.hostId]
+			vAssert(ok && p != nil && p.host == h && p.size == 2, "C17/pools/added-host-has-a-pool-of-the-configured-size")
+			vAssert(ok && vPoolFills[p] >= 1, "C17/pools/added-host-is-filled")
+		case 1:
+			before := pp.hostConnPools[h.hostId]
+			pp.removeHost(h.hostId)
+			_, still := pp.hostConnPools[h.hostId]
+			vAssert(!still, "C17/pools/removed-host-has-no-pool")
+			if before != nil {
+				vAssert(vPoolCloses[before] == 1, "C17/pools/removed-pool-is-closed-once")
+			}
+		default:
+			pp.Close()
+			vAssert(len(pp.hostConnPools) == 0, "C17/pools/close-leaves-no-pool")
+		}
+		note()
+		vAssert(len(pp.hostConnPools) <= 2, "C17/pools/at-most-one-pool-per-host")
+	}
+	// every pool that was ever in the map and no longer is has been closed exactly once; the others not at all
+	for _, p := range everSeen {
+		cur, in := pp.hostConnPools[p.host.hostId]
+		if in && cur == p {
+			vAssert(vPoolCloses[p] == 0, "C17/pools/a-pool-in-use-is-not-closed")
+		} else {
+			vAssert(vPoolCloses[p] == 1, "C17/pools/a-pool-that-left-the-map-is-closed-exactly-once")
+		}
+	}
+	vObserve("pools", len(pp.hostConnPools))
+}
